@@ -37,6 +37,9 @@ pub struct Failure {
     pub ops: usize,
     pub ops_before_shrink: usize,
     pub shrink_replays: u64,
+    /// false: the violation was observed but replaying the recorded case does not show it again
+    /// (the system under test behaved nondeterministically)
+    pub reproducible: bool,
 }
 
 #[derive(Default)]
@@ -278,13 +281,18 @@ pub fn run_engine_procs<E: Engine>(e: &E, p: &Params) -> EngineReport {
     if let Some(idx) = first_failure {
         // regenerate the failing run here (pure function of the seed), then shrink as usual
         let run_seed = mix(p.seed, e.name(), idx);
-        let (case, ctx) = e.generate(run_seed, p.focus, p.tier, false);
-        match ctx.violation.clone() {
-            Some(v) => rep.failure = Some(finish_failure(e, p, idx, run_seed, case, v, ctx.ops as usize)),
-            None => {
-                crate::out!("HARNESS-ERROR engine={} run={} seed={}: a worker reported a violation that does not reproduce", e.name(), idx, run_seed);
-                std::process::exit(2);
+        let mut done = false;
+        for _ in 0..30 {
+            let (case, ctx) = e.generate(run_seed, p.focus, p.tier, false);
+            if let Some(v) = ctx.violation.clone() {
+                rep.failure = Some(finish_failure(e, p, idx, run_seed, case, v, ctx.ops as usize));
+                done = true;
+                break;
             }
+        }
+        if !done {
+            crate::out!("HARNESS-ERROR engine={} run={} seed={}: a worker reported a violation that does not reproduce in 30 attempts", e.name(), idx, run_seed);
+            std::process::exit(2);
         }
     }
     rep.wall_s = t0.elapsed().as_secs_f64();
@@ -297,17 +305,39 @@ fn finish_failure<E: Engine>(e: &E, p: &Params, idx: u64, run_seed: u64, case: E
     let (viol, hash, final_case) = match ctx.violation.clone() {
         Some(v2) if v2.prop == v.prop && v2.rule == v.rule => (v2, ctx.log.hash(), min_case),
         _ => {
-            let c0 = e.replay(&case, p.focus, false);
-            match c0.violation.clone() {
-                Some(v0) => (v0, c0.log.hash(), case),
+            // the recorded case must reproduce; if it does not, the system under test itself has
+            // become nondeterministic (e.g. a change that iterates a std HashMap the simulator has
+            // no seam for). Retry a few times, then report the violation as observed, flagged.
+            let mut found = None;
+            for _ in 0..30 {
+                let c0 = e.replay(&case, p.focus, false);
+                if let Some(v0) = c0.violation.clone() {
+                    if v0.prop == v.prop {
+                        found = Some((v0, c0.log.hash()));
+                        break;
+                    }
+                }
+            }
+            match found {
+                Some((v0, h0)) => (v0, h0, case),
                 None => {
-                    crate::out!("HARNESS-ERROR engine={} run={} seed={}: recorded case does not reproduce {}/{}", e.name(), idx, run_seed, v.prop, v.rule);
-                    std::process::exit(2);
+                    return Failure {
+                        run_index: idx,
+                        run_seed,
+                        violation: v,
+                        case: serde_json::to_value(&case).unwrap(),
+                        hash: 0,
+                        ops: e.ops_len(&case),
+                        ops_before_shrink: ops,
+                        shrink_replays: replays,
+                        reproducible: false,
+                    };
                 }
             }
         }
     };
     Failure {
+        reproducible: true,
         run_index: idx,
         run_seed,
         violation: viol,
